@@ -517,13 +517,14 @@ def fast_contracts():
         # the unitary alignments of the window's best alignment not consumed yet still have all their units in the working copy
         Macro("pending", ["kc", "skip"], "forall(t, 0, len(BL()), t == skip or exists(k, 0, kc, ghost('PI')[k] == t) or "
                                          "forall(a, 0, nA(), isnone(slotB(t, a)) or Us(copy)[KA(a)][some(slotB(t, a))]))"),
+        Macro("old_in_copy", ["a", "u"], "UC0[a][u]"),
         Macro("taken", ["kc"], "len(unitary_alignments) == U0 + kc and forall(k, 0, kc, unitary_alignments[U0 + k] == BL()[ghost('PI')[k]])"),
     ]
     contract(F + "Continuum.get_fast_alignment",
              params={"self": CONT(), "dissimilarity": DISSIM(), "window_size": IntT()}, returns=ALIGN("Alignment"),
              modifies=[], macros=FM, binds={"result.continuum": "self"}, lemmas=PSUM_LEMMAS,
              locals={"unitary_alignments": UAT(), "disorders": RealT()},
-             ghost_vars={"U0": ("Int", "0"), "NU0": ("Int", "0"), "NUK": ("Int", "0")},
+             ghost_vars={"U0": ("Int", "0"), "NU0": ("Int", "0"), "NUK": ("Int", "0"), "UC0": ("RUSet", None)},
              requires=[c.text for c in callee.requires] + ["window_size >= 1", "NumUnits(self) >= 1"],
              raises={"AssertionError": {}, "SolverError": {}},
              ensures=[cl(c.text, "C10", name=c.name) for c in ens],
@@ -550,11 +551,23 @@ def fast_contracts():
                     ("before", "for chosen in best_alignment.take_until_limit(x_limit): ...", "model_inv wfmap(window)"),
                     ("before", "for chosen in best_alignment.take_until_limit(x_limit): ...", "assert len(BL()) >= 1"),
                     ("before", "unitary_alignments.append(chosen)", "NUK = NumUnits(copy)"),
+                    ("before", "copy.remove(annotator, unit)", "UC0 = Us(copy)"),
                     ("after", "disorders.append(chosen.disorder)", "assert forall(a, 0, nA(), slotU(U0 + kc, a) == slotC(a))"),
                     ("after", "disorders.append(chosen.disorder)", "assert exists(a, 0, nA(), not isnone(slotC(a)))"),
                     ("after", "disorders.append(chosen.disorder)", "assert forall(a, 0, nA(), forall(a2, 0, nA(), implies(a != a2, KA(a) != KA(a2))))"),
                     ("after", "copy.remove(annotator, unit)",
                      "assert not isnone(slotU(U0 + kc, ia)) and some(slotU(U0 + kc, ia)) == unit and KA(ia) == annotator"),
+                    ("after", "copy.remove(annotator, unit)",
+                     "assert 0 <= U0 + kc and exists(t, 0, U0 + kc + 1, not isnone(slotU(t, ia)) and some(slotU(t, ia)) == unit)"),
+                    # the removed unit sits in no other unitary alignment of the window's best alignment (at most once), so the pending ones keep theirs
+                    ("after", "copy.remove(annotator, unit)",
+                     "assert forall(t, 0, len(BL()), implies(t != ghost('PI')[kc], isnone(slotB(t, ia)) or some(slotB(t, ia)) != unit))"),
+                    ("after", "copy.remove(annotator, unit)",
+                     "assert forall([a, (u, Unit)], implies(0 <= a and a < nA() and not (a == ia and u == unit) and old_in_copy(KA(a), u), "
+                     "Us(copy)[KA(a)][u]))"),
+                    ("after", "copy.remove(annotator, unit)",
+                     "assert forall(t, 0, len(BL()), forall(a, 0, nA(), implies(t != ghost('PI')[kc] and not isnone(slotB(t, a)) and "
+                     "old_in_copy(KA(a), some(slotB(t, a))), Us(copy)[KA(a)][some(slotB(t, a))])))"),
                     ("before", "return Alignment(...", "model_inv wfmap(copy)"),
                     ("before", "return Alignment(...", "model_inv wfmap(self)"),
                     ("before", "return Alignment(...", "assert forall([(a, Real), (u, Unit)], not Us(copy)[a][u])"),
